@@ -246,6 +246,17 @@ def _run(case, cfg, w):
             v.add('partial_packet_survives', where)
         fully_accepted = False
 
+    def settle_engineio():
+        # engine.io's client, when it is closed with abort=True (server CLOSE,
+        # or socketio ending the transport after the last namespace went),
+        # drains its queue in _reset() before its write loop has seen the
+        # None sentinel; that write loop then lingers until its own timeout
+        # (ping_interval + 5 s) and would steal the sentinel of the next
+        # connection.  This is inside the trusted dependency (E5): let it
+        # time out before the same client object connects again.
+        w.advance(1010.0)
+        w.settle()
+
     ended_early = set()
     live = False
     for opi, op in enumerate(case['ops']):
@@ -444,6 +455,7 @@ def _run(case, cfg, w):
                 end_connection(where, 'last_namespace_ended',
                                'server disconnect')
                 live = False
+                settle_engineio()
         elif k in ('disconnect', 'sever', 'sever_mid_binary',
                    'sever_with_callbacks', 'sdisc_all', 'server_close'):
             nontrivial = True
@@ -490,6 +502,7 @@ def _run(case, cfg, w):
             w.settle()
             end_connection(where, cause, reason)
             live = False
+            settle_engineio()
     if w.mode == 'thread':
         from sim.world import exc_site
         for name, e in w.kernel.thread_errors:
